@@ -7,6 +7,7 @@
 //!
 //! exit 0: property held on everything explored; exit 1: VIOLATION line printed; exit 2: harness error
 
+mod coop;
 mod describe;
 mod driver;
 mod formats;
